@@ -35,6 +35,16 @@ CHECKS = {
              '(p, L(p), blob(p)) triples in storage order, each evaluation at most once; replay over evaluation modes with an instrumented '
              'likelihood whose call log every returned row is checked against.',
         note='Trusted: Lean kernel + standard axioms; harness/corerec.py + corechecks.py (outside instrumentation, abstraction of the real state); numerics (bounds, networks, likelihood values) are oracles: theorems hold for every oracle answer subject to the stated hypotheses (WF = proposals fresh, in the cube and inside their bound, i.e. C07; PhaseOK/TPhase = phase discipline of run()).', tech='Lean 4 proof (alignment refinement parallel arrays -> rows) + replay with instrumented likelihood', ref='DESIGN.md §3 C03'),
+    'C05': dict(
+        text='Lean 4 theorems: loop-slice laws for the run() loop as iteration of a deterministic step (slices, chains of limits, stop after any '
+             'number of batches, idempotence) + `decide` theorems over persistence tables regenerated from sampler.py (incremental update covers '
+             'every field a batch or a discard switch mutates; resume restores every field run() mutates; full write follows every bound '
+             'insertion/end of exploration); at every write event of real runs the file equals a full write of the in-memory state; resumes from '
+             'batch boundaries are finished and compared bit-for-bit incl. the set of evaluated points.',
+        note='Trusted: Lean kernel + propext/Quot.sound; harness/gen_c05.py (AST extraction of key lists, mutated-attribute closures, run skeleton); '
+             'harness/c05.py; determinism of numpy/sklearn across processes; the step of the Loop model is not derived from the code (its '
+             'determinism is what the bit-identical resumes sample).',
+        tech='Lean 4 proof (loop-slice laws + decide over generated persistence tables) + file-vs-memory diff at every write + resume differential', ref='DESIGN.md §3 C05'),
     'C09': dict(
         text='Lean 4 `decide` theorems over persistence tables regenerated from write/read/update of every bound class (all classes x '
              'all guard valuations): read assigns every attribute the behavioural methods use, from the key and under the guard write '
@@ -72,7 +82,7 @@ CHECKS = {
         tech='Lean 4 proof + AST translator + scripted-RNG exact differential', ref='DESIGN.md §3 C14'),
 }
 
-READY = ['C01', 'C02', 'C03', 'C09', 'C10', 'C12', 'C13', 'C14', 'C15', 'C16']
+READY = ['C01', 'C02', 'C03', 'C05', 'C09', 'C10', 'C12', 'C13', 'C14', 'C15', 'C16']
 
 PENDING_REASON = 'check under construction in this build round; not yet registered (see DESIGN.md §6 build order)'
 
